@@ -24,6 +24,35 @@
 // goroutines, maps, closures, pointers that alias, defer and everything else outside the subset
 // make Translate return an error (the caller then emits its pinned copy and reports the anchor
 // lost, so that the correspondence run decides).
+//
+// Additions made for the standard library's os.Expand (GOROOT/src/os/env.go):
+//
+//	f func(A, …) R (parameter)   an opaque total Lean function `f : A → … → R` (first-order A, R); a call
+//	                        `f(x)` is the application `f x` and cannot panic; f is passed along to the loop
+//	                        definitions like every other variable
+//	switch                  an expression switch is the if-chain it abbreviates (desugarSwitch):
+//	                        `switch { case c1, c2: A; case c3: B; default: D }` = if c1 || c2 {A} else if c3 {B} else {D},
+//	                        `switch x { case 'a', 'b': A }` = if x == 'a' || x == 'b' {A}; the case expressions are
+//	                        evaluated in source order with the short circuit of `||` (a case expression that can panic is
+//	                        only reached when the earlier ones are false), `default` runs when none matches wherever it
+//	                        is written, a tag other than an identifier or literal is evaluated once into a fresh variable;
+//	                        `fallthrough`, an unlabelled `break` out of the switch and type switches are rejected
+//	var x []T … x == nil    NIL-NESS.  nil and the empty slice are identified everywhere EXCEPT for a local variable that is
+//	                        declared `var x []T` (optionally `= nil` / `= make(…)`) and compared with nil (`x == nil`, `x != nil`,
+//	                        either operand order) somewhere in the function: such a variable has the Lean type `Option (List T)`,
+//	                        none = nil, some d = a non-nil slice with contents d (GIV/GoLibNil.lean).  `x == nil` is
+//	                        `Option.isNone x`; `x = nil` is none; `x = make(…)` and `x = []T{…}` are `some …` (never nil, also when
+//	                        empty); `x = append(x, ys...)` / `append(x, y, …)` is `GoLib.nilAppend x ys` (a non-nil slice stays
+//	                        non-nil, nil stays nil exactly when nothing is appended); `x = y` for another such variable copies
+//	                        the Option; any other right-hand side (a slice expression, a call, a parameter: nil-ness unknown)
+//	                        is rejected; every other use of x (`string(x)`, `len(x)`, `x[i]`, `x[a:b]`, `range x`, `x + …`, an
+//	                        argument, a result) reads `GoLib.nilData x` (nil behaves like empty there).  A nil test on a parameter,
+//	                        on a `:=` variable or on any slice expression is still rejected
+//	make([]T, 0, c)         the empty non-nil slice (capacity is not observable: slices are checked against len); the panic on a
+//	                        negative c is kept (`GoLib.make? z c` is evaluated and dropped); a non-zero length with a capacity is rejected
+//	uint8, (string, int)    uint8 is byte (UInt8); several results are a Lean tuple, `a, b := f(x)` destructures it
+//	for init; cond; post {} an empty body, and an assignment to the loop variable inside the body (`j += w`), need no rule of
+//	                        their own: the loop variable is one of the modified variables of f_loop<n>
 package go2lean
 
 import (
@@ -52,11 +81,13 @@ const (
 	KTuple
 	KOpaque // a parameter the translation only passes along (Name = its Lean type)
 	KMap    // map[string]bool that is only read: a predicate Bytes → Bool (a missing key reads false)
+	KFunc   // a function-typed parameter `f func(A, …) R`: an opaque total Lean function A → … → R (Tup = parameters, Elem = result)
+	KNil    // a local slice variable whose nil-ness the code observes: Option of Elem (none = nil), see the package comment
 )
 
 type Type struct {
 	K    Kind
-	Elem *Type   // KList
+	Elem *Type   // KList: element type; KFunc: result type; KNil: the slice type
 	Name string  // KStruct: Lean structure name
 	Tup  []*Type // KTuple
 	Str  bool    // KBytes: a Go string (same Lean type as []byte; `range` yields runes, not bytes)
@@ -92,6 +123,14 @@ func (t *Type) Lean() string {
 		return t.Name
 	case KMap:
 		return "(Bytes → Bool)"
+	case KFunc:
+		parts := make([]string, 0, len(t.Tup)+1)
+		for _, x := range t.Tup {
+			parts = append(parts, x.Lean())
+		}
+		return "(" + strings.Join(append(parts, t.Elem.Lean()), " → ") + ")"
+	case KNil:
+		return "(Option " + t.Elem.Lean() + ")"
 	case KTuple:
 		parts := make([]string, len(t.Tup))
 		for i, x := range t.Tup {
@@ -192,7 +231,8 @@ type tr struct {
 	err      error
 	file     *ast.File
 	inGlobal map[string]bool
-	selfRec  bool // the function being translated calls itself: its body is defined by recursion on a fuel argument
+	selfRec  bool            // the function being translated calls itself: its body is defined by recursion on a fuel argument
+	nilTest  map[string]bool // names compared with nil somewhere in the function being translated
 }
 
 // topLevel finds the initializer of a package-level `const`/`var name = <expr>`.
@@ -338,6 +378,30 @@ func (t *tr) typeExpr(e ast.Expr) *Type {
 		}
 	case *ast.StarExpr: // *T for a struct T that does not alias (checked by the caller's choice of functions)
 		return t.typeExpr(v.X)
+	case *ast.FuncType: // a function value that is only called: an opaque total function of first-order arguments
+		if v.TypeParams == nil && v.Results != nil && len(v.Results.List) == 1 && len(v.Results.List[0].Names) <= 1 && len(v.Params.List) > 0 {
+			ft := &Type{K: KFunc, Elem: t.typeExpr(v.Results.List[0].Type)}
+			for _, f := range v.Params.List {
+				if _, variadic := f.Type.(*ast.Ellipsis); variadic {
+					t.fail(e, "unsupported type %s", t.src(e))
+				}
+				pt := t.typeExpr(f.Type)
+				n := len(f.Names)
+				if n == 0 {
+					n = 1
+				}
+				for i := 0; i < n; i++ {
+					ft.Tup = append(ft.Tup, pt)
+				}
+			}
+			ok := ft.Elem.K != KFunc && ft.Elem.K != KMap
+			for _, pt := range ft.Tup {
+				ok = ok && pt.K != KFunc && pt.K != KMap
+			}
+			if ok {
+				return ft
+			}
+		}
 	}
 	t.fail(e, "unsupported type %s", t.src(e))
 	return nil
@@ -351,7 +415,7 @@ func (t *tr) zero(ty *Type) string {
 		return "false"
 	case KBytes, KList:
 		return "[]"
-	case KError:
+	case KError, KNil:
 		return "none"
 	case KStruct:
 		for _, s := range t.cfg.Structs {
@@ -419,6 +483,20 @@ type val struct {
 	pre []string
 	s   string
 	t   *Type
+	// nonNil: a slice value known not to be nil (the result of make or of a composite literal); only such a
+	// value, `nil`, an append to a KNil variable or a KNil variable may be assigned to a KNil variable
+	nonNil bool
+}
+
+// expr translates an expression whose nil-ness is of no interest: a KNil variable is read as its contents.
+func (t *tr) expr(e ast.Expr) val { return t.data(t.exprN(e)) }
+
+// data reads a KNil value as the plain slice (nil = the empty slice).
+func (t *tr) data(v val) val {
+	if v.t != nil && v.t.K == KNil {
+		return val{pre: v.pre, s: "GoLib.nilData " + paren(v.s), t: v.t.Elem}
+	}
+	return v
 }
 
 func paren(s string) string {
@@ -454,10 +532,10 @@ func leanBytes(s string) string {
 	return "[" + strings.Join(parts, ", ") + "]"
 }
 
-func (t *tr) expr(e ast.Expr) val {
+func (t *tr) exprN(e ast.Expr) val {
 	switch v := e.(type) {
 	case *ast.ParenExpr:
-		return t.expr(v.X)
+		return t.exprN(v.X)
 	case *ast.BasicLit:
 		switch v.Kind {
 		case token.INT:
@@ -602,7 +680,7 @@ func (t *tr) expr(e ast.Expr) val {
 				pre = append(pre, x.pre...)
 				parts = append(parts, x.s)
 			}
-			return val{pre: pre, s: "([" + strings.Join(parts, ", ") + "] : " + ty.Lean() + ")", t: ty}
+			return val{pre: pre, s: "([" + strings.Join(parts, ", ") + "] : " + ty.Lean() + ")", t: ty, nonNil: true}
 		}
 	case *ast.CallExpr:
 		return t.call(v)
@@ -627,6 +705,18 @@ func (t *tr) coerce(v val, want *Type) val {
 			panic(bail{fmt.Errorf("nil in a context without a type")})
 		}
 		return val{s: t.zero(want), t: want}
+	}
+	if want != nil && want.K == KNil {
+		if v.t != nil && v.t.K == KNil {
+			return v
+		}
+		if !v.nonNil {
+			panic(bail{fmt.Errorf("assignment of %s to a slice variable that is tested for nil: only nil, make, a composite literal, an append to it, or another such variable", v.s)})
+		}
+		return val{pre: v.pre, s: "some " + paren(v.s), t: want}
+	}
+	if v.t != nil && v.t.K == KNil {
+		return t.data(v)
 	}
 	return v
 }
@@ -653,19 +743,26 @@ func (t *tr) binary(v *ast.BinaryExpr) val {
 		}
 		return val{pre: append(append([]string{}, x.pre...), line), s: tmp, t: TBool}
 	}
-	x, y := t.expr(v.X), t.expr(v.Y)
+	x, y := t.exprN(v.X), t.exprN(v.Y)
 	if x.t == nil && y.t == nil {
 		t.fail(v, "nil compared with nil")
 	}
 	if (x.t == nil || y.t == nil) && (v.Op == token.EQL || v.Op == token.NEQ) {
-		other := x.t
+		other, ov := x.t, x
 		if other == nil {
-			other = y.t
+			other, ov = y.t, y
+		}
+		if other.K == KNil { // the nil test of a variable whose nil-ness is tracked
+			if v.Op == token.EQL {
+				return val{pre: ov.pre, s: "Option.isNone " + paren(ov.s), t: TBool}
+			}
+			return val{pre: ov.pre, s: "Option.isSome " + paren(ov.s), t: TBool}
 		}
 		if other.K != KError {
 			t.fail(v, "nil test on a slice or pointer is outside the subset (nil and empty are identified)")
 		}
 	}
+	x, y = t.data(x), t.data(y)
 	x, y = t.coerce(x, y.t), t.coerce(y, x.t)
 	pre := append(append([]string{}, x.pre...), y.pre...)
 	a, b := paren(x.s), paren(y.s)
@@ -726,6 +823,20 @@ func (t *tr) call(c *ast.CallExpr) val {
 		}
 		return pre, vs
 	}
+	if id, ok := c.Fun.(*ast.Ident); ok {
+		if vi := t.lookup(id.Name); vi != nil && vi.t.K == KFunc {
+			// a call of a function-typed parameter: application of the opaque function (it cannot panic)
+			pre, vs := args()
+			if len(vs) != len(vi.t.Tup) || c.Ellipsis.IsValid() {
+				t.fail(c, "call of %s with %d arguments", id.Name, len(vs))
+			}
+			parts := []string{vi.lean}
+			for i, x := range vs {
+				parts = append(parts, paren(t.coerce(x, vi.t.Tup[i]).s))
+			}
+			return val{pre: pre, s: strings.Join(parts, " "), t: vi.t.Elem}
+		}
+	}
 	switch name {
 	case "len":
 		pre, vs := args()
@@ -756,17 +867,58 @@ func (t *tr) call(c *ast.CallExpr) val {
 		return val{s: "(" + t.zero(ty) + " : " + ty.Lean() + ")", t: ty}
 	case "make":
 		ty := t.typeExpr(c.Args[0])
-		if len(c.Args) != 2 || (ty.K != KBytes && ty.K != KList) {
+		if (len(c.Args) != 2 && len(c.Args) != 3) || (ty.K != KBytes && ty.K != KList) {
 			t.fail(c, "unsupported make")
 		}
-		n := t.expr(c.Args[1])
 		et := TByte
 		if ty.K == KList {
 			et = ty.Elem
 		}
+		if len(c.Args) == 3 {
+			// make([]T, 0, c): the capacity is not observable (slices are checked against len); what remains is
+			// the panic on a negative capacity, kept by building (and dropping) a slice of that length
+			if lit, ok := c.Args[1].(*ast.BasicLit); !ok || lit.Value != "0" {
+				t.fail(c, "unsupported make: with a capacity only length 0 is in the subset")
+			}
+			n := t.expr(c.Args[2])
+			tmp := t.tmp()
+			return val{pre: append(n.pre, fmt.Sprintf("let %s ← GoLib.make? (%s : %s) %s", tmp, t.zero(et), et.Lean(), paren(n.s))), s: "([] : " + ty.Lean() + ")", t: ty, nonNil: true}
+		}
+		n := t.expr(c.Args[1])
 		tmp := t.tmp()
-		return val{pre: append(n.pre, fmt.Sprintf("let %s ← GoLib.make? (%s : %s) %s", tmp, t.zero(et), et.Lean(), paren(n.s))), s: tmp, t: ty}
+		return val{pre: append(n.pre, fmt.Sprintf("let %s ← GoLib.make? (%s : %s) %s", tmp, t.zero(et), et.Lean(), paren(n.s))), s: tmp, t: ty, nonNil: true}
 	case "append":
+		if id, ok := c.Args[0].(*ast.Ident); ok && t.lookup(id.Name) != nil && t.lookup(id.Name).t.K == KNil {
+			{
+				first := t.exprN(id)
+				// append to a slice variable whose nil-ness is tracked: nil stays nil only when nothing is appended
+				pre := append([]string{}, first.pre...)
+				var vs []val
+				for _, a := range c.Args[1:] {
+					x := t.expr(a)
+					pre = append(pre, x.pre...)
+					vs = append(vs, x)
+				}
+				if len(vs) == 0 {
+					return val{pre: pre, s: first.s, t: first.t}
+				}
+				if c.Ellipsis.IsValid() {
+					if len(vs) != 1 || vs[0].t == nil {
+						t.fail(c, "unsupported append")
+					}
+					return val{pre: pre, s: "GoLib.nilAppend " + paren(first.s) + " " + paren(vs[0].s), t: first.t}
+				}
+				et := TByte
+				if first.t.Elem.K == KList {
+					et = first.t.Elem.Elem
+				}
+				parts := []string{}
+				for _, x := range vs {
+					parts = append(parts, t.coerce(x, et).s)
+				}
+				return val{pre: pre, s: "GoLib.nilAppend " + paren(first.s) + " [" + strings.Join(parts, ", ") + "]", t: first.t}
+			}
+		}
 		pre, vs := args()
 		if vs[0].t == nil || (vs[0].t.K != KBytes && vs[0].t.K != KList) {
 			t.fail(c, "append to a non-slice")
@@ -898,6 +1050,10 @@ func terminates(list []ast.Stmt) bool {
 		return terminates(s.Body.List) && terminates(el)
 	case *ast.ForStmt:
 		return s.Cond == nil && !hasBreak(s.Body)
+	case *ast.SwitchStmt:
+		if d, _ := desugarSwitch(s); d != nil {
+			return terminates([]ast.Stmt{d})
+		}
 	case *ast.ExprStmt:
 		if c, ok := s.X.(*ast.CallExpr); ok {
 			if id, ok := c.Fun.(*ast.Ident); ok && id.Name == "panic" {
@@ -927,6 +1083,104 @@ func hasBreak(n ast.Node) bool {
 		return true
 	})
 	return found
+}
+
+// desugarSwitch rewrites an expression switch as the if-chain it abbreviates:
+//
+//	switch init; tag { case a, b: A; default: D; case c: C }
+//	  ⇒  { init; if tag == a || tag == b { A } else if tag == c { C } else { D } }
+//
+// (no tag: the case expressions themselves are the conditions).  The case expressions are evaluated top
+// to bottom, left to right, until one matches — the order of the `||` chain, whose short circuit the
+// translation keeps; `default` runs when none matches, wherever it is written.  A tag that is not an
+// identifier or a literal is evaluated once into a fresh variable.  `fallthrough`, an unlabelled
+// `break` that leaves the switch, and type switches are outside the subset.  The original tree is not
+// modified.
+func desugarSwitch(s *ast.SwitchStmt) (ast.Stmt, string) {
+	var pre []ast.Stmt
+	if s.Init != nil {
+		pre = append(pre, s.Init)
+	}
+	tag := s.Tag
+	if tag != nil {
+		switch tag.(type) {
+		case *ast.Ident, *ast.BasicLit:
+		default:
+			id := ast.NewIdent("switchTag")
+			pre = append(pre, &ast.AssignStmt{Lhs: []ast.Expr{id}, Tok: token.DEFINE, Rhs: []ast.Expr{tag}, TokPos: tag.Pos()})
+			tag = id
+		}
+	}
+	var chain, last *ast.IfStmt
+	var deflt *ast.BlockStmt
+	for _, st := range s.Body.List {
+		cc, ok := st.(*ast.CaseClause)
+		if !ok {
+			return nil, "unsupported switch"
+		}
+		bad := ""
+		for _, b := range cc.Body {
+			ast.Inspect(b, func(x ast.Node) bool {
+				switch v := x.(type) {
+				case *ast.ForStmt, *ast.RangeStmt, *ast.SwitchStmt, *ast.TypeSwitchStmt, *ast.SelectStmt:
+					return false // a break in there leaves that statement
+				case *ast.FuncLit:
+					return false
+				case *ast.BranchStmt:
+					if v.Tok == token.FALLTHROUGH || (v.Tok == token.BREAK && v.Label == nil) {
+						bad = "switch with " + v.Tok.String()
+					}
+				}
+				return true
+			})
+		}
+		if bad != "" {
+			return nil, bad
+		}
+		body := &ast.BlockStmt{Lbrace: cc.Colon, List: cc.Body, Rbrace: cc.End()}
+		if cc.List == nil {
+			if deflt != nil {
+				return nil, "switch with two defaults"
+			}
+			deflt = body
+			continue
+		}
+		var cond ast.Expr
+		for _, e := range cc.List {
+			c := e
+			if tag != nil {
+				c = &ast.BinaryExpr{X: tag, OpPos: e.Pos(), Op: token.EQL, Y: e}
+			}
+			if cond == nil {
+				cond = c
+			} else {
+				cond = &ast.BinaryExpr{X: cond, OpPos: e.Pos(), Op: token.LOR, Y: c}
+			}
+		}
+		is := &ast.IfStmt{If: cc.Case, Cond: cond, Body: body}
+		if chain == nil {
+			chain = is
+		} else {
+			last.Else = is
+		}
+		last = is
+	}
+	var res ast.Stmt
+	switch {
+	case chain == nil && deflt == nil:
+		res = &ast.BlockStmt{Lbrace: s.Switch}
+	case chain == nil:
+		res = deflt
+	default:
+		if deflt != nil {
+			last.Else = deflt
+		}
+		res = chain
+	}
+	if len(pre) > 0 {
+		res = &ast.BlockStmt{Lbrace: s.Switch, List: append(pre, res), Rbrace: s.End()}
+	}
+	return res, ""
 }
 
 // jumps: the statements contain a return, break or continue (that leaves them).
@@ -1101,6 +1355,12 @@ func (t *tr) block(list []ast.Stmt, k func() string) string {
 		return t.forStmt(v, rest)
 	case *ast.RangeStmt:
 		return t.rangeStmt(v, rest)
+	case *ast.SwitchStmt:
+		d, why := desugarSwitch(v)
+		if d == nil {
+			t.fail(v, "%s is outside the subset", why)
+		}
+		return t.block(append([]ast.Stmt{d}, list[1:]...), k)
 	case *ast.ExprStmt:
 		if c := t.isAbort(v); c != nil {
 			if len(c.Args) == 0 {
@@ -1175,9 +1435,12 @@ func (t *tr) simple(s ast.Stmt) []string {
 				var ty *Type
 				if vs.Type != nil {
 					ty = t.typeExpr(vs.Type)
+					if t.nilTest[n.Name] && (ty.K == KBytes || ty.K == KList) {
+						ty = &Type{K: KNil, Elem: ty} // `var x []T` of a variable that is compared with nil
+					}
 				}
 				if i < len(vs.Values) {
-					x := t.coerce(t.expr(vs.Values[i]), ty)
+					x := t.coerce(t.exprN(vs.Values[i]), ty)
 					if ty == nil {
 						ty = x.t
 					}
@@ -1280,14 +1543,14 @@ func (t *tr) assign(a *ast.AssignStmt) []string {
 	}
 	if len(a.Lhs) == len(a.Rhs) {
 		if len(a.Lhs) == 1 {
-			x := t.expr(a.Rhs[0])
-			return append(x.pre, t.assignTo(a.Lhs[0], val{s: x.s, t: x.t}, define)...)
+			x := t.exprN(a.Rhs[0])
+			return append(x.pre, t.assignTo(a.Lhs[0], val{s: x.s, t: x.t, nonNil: x.nonNil}, define)...)
 		}
 		// parallel assignment: evaluate all right-hand sides first
 		var lines []string
 		var tmps []val
 		for _, r := range a.Rhs {
-			x := t.expr(r)
+			x := t.exprN(r)
 			lines = append(lines, x.pre...)
 			if x.t == nil {
 				tmps = append(tmps, x)
@@ -1299,7 +1562,7 @@ func (t *tr) assign(a *ast.AssignStmt) []string {
 			}
 			tmp := t.tmp()
 			lines = append(lines, fmt.Sprintf("let %s := %s", tmp, x.s))
-			tmps = append(tmps, val{s: tmp, t: x.t})
+			tmps = append(tmps, val{s: tmp, t: x.t, nonNil: x.nonNil})
 		}
 		for i, l := range a.Lhs {
 			lines = append(lines, t.assignTo(l, tmps[i], define)...)
@@ -1668,6 +1931,20 @@ func (t *tr) function(fd *ast.FuncDecl) string {
 	t.scopes, t.order, t.used, t.loops = nil, nil, map[string]int{}, nil
 	t.nAux, t.nTmp, t.nLoop = 0, 0, 0
 	t.named = nil
+	t.nilTest = map[string]bool{}
+	ast.Inspect(fd.Body, func(x ast.Node) bool {
+		if b, ok := x.(*ast.BinaryExpr); ok && (b.Op == token.EQL || b.Op == token.NEQ) {
+			l, lok := b.X.(*ast.Ident)
+			r, rok := b.Y.(*ast.Ident)
+			if lok && rok && r.Name == "nil" {
+				t.nilTest[l.Name] = true
+			}
+			if lok && rok && l.Name == "nil" {
+				t.nilTest[r.Name] = true
+			}
+		}
+		return true
+	})
 	t.push()
 	sig := &funcSig{lean: t.fnLean}
 	var ps []string
